@@ -43,7 +43,7 @@ func runC06WireCase(run *ev.Run, cs c06WireCase) {
 	names := []string{"x-lower", "X-UPPER", "X-Mixed-Case", "sOAPAction", "X-Trace", "x-trace", "x-vegeta-seq", "X-VEGETA-ATTACK"}
 	var targets []vegeta.Target
 	for i := 0; i < cs.Hits; i++ {
-		t := vegeta.Target{Method: []string{"GET", "POST", "PUT", "DELETE"}[rng.Intn(4)], URL: fmt.Sprintf("%s/w%d?n=%d", srv.URL(), i, i), Header: map[string][]string{}}
+		t := vegeta.Target{Method: []string{"GET", "POST", "PUT", "DELETE", "HEAD"}[rng.Intn(5)], URL: fmt.Sprintf("%s/w%d?n=%d", srv.URL(), i, i), Header: map[string][]string{}}
 		for k := rng.Intn(5); k > 0; k-- {
 			n := names[rng.Intn(len(names))]
 			t.Header[n] = append(t.Header[n], fmt.Sprintf("v%d.%d", i, k))
@@ -140,11 +140,14 @@ func runC06WireCase(run *ev.Run, cs c06WireCase) {
 		if cs.MaxBody >= 0 && int(cs.MaxBody) < len(respBody) {
 			wantBody = respBody[:cs.MaxBody]
 		}
+		if t.Method == "HEAD" { // the answer to HEAD announces a Content-Length but has no body
+			wantBody = ""
+		}
 		if res.Code != 200 || res.Error != "" || string(res.Body) != wantBody || res.BytesIn != uint64(len(wantBody)) || res.BytesOut != uint64(len(t.Body)) {
 			viol("result", fmt.Sprintf("exchange %d: result code=%d error=%q body %d bytes bytes_in=%d bytes_out=%d; want 200, \"\", %d, %d, %d", i, res.Code, res.Error, len(res.Body), res.BytesIn, res.BytesOut, len(wantBody), len(wantBody), len(t.Body)), i)
 			return
 		}
-		if fmt.Sprint(res.Headers["X-Srv"]) != "[a b]" {
+		if t.Method != "HEAD" && fmt.Sprint(res.Headers["X-Srv"]) != "[a b]" {
 			viol("response-headers", fmt.Sprintf("exchange %d: result headers X-Srv = %q, the server sent a, b", i, res.Headers["X-Srv"]), i)
 			return
 		}
